@@ -28,7 +28,10 @@ class C07(Spec):
         for stall, mb in combos:
             cases.append("S %d %d" % (stall, mb << 20))
         # ... and with a send attempted on the blocked descriptor that makes no progress (a handler flushing behind the blocked write)
-        for stall, mb in combos[:2] if tier == "quick" else combos[::2]:
+        # (sizes up to 16 MB: every flush attempt copies what remains of the blocked buffer, which is time spent in the handler,
+        # not a stall caused by the blocked peer; with 48-64 MB the 17 flushes alone took longer than the measuring window - a
+        # false alarm of the first version of this case, see DESIGN section 9)
+        for stall, mb in ([(900, 16), (900, 8)] if tier == "quick" else [(s_, m_) for s_ in (900, 1500, 2400) for m_ in (8, 12, 16)]):
             cases.append("S %d %d f" % (stall, mb << 20))
         for th in "LF":
             for sc in ("w", "w,w", "a1,w,a7,w", "w,a999999,w", "a4096,w,w,w,a1"):
